@@ -14,7 +14,9 @@ func c09Gen(r *rand.Rand, tier string) []spec.Case {
 	add := func(kind string, steps ...string) {
 		// every other gRPC-kind case ends with a close that races with listener announcements
 		cr := kind != "mux" && len(out)%2 == 0
-		out = append(out, spec.Case{Kind: kind, P: spec.MustJSON(spec.C09Case{Kind: kind, Steps: steps, CloseRace: cr})})
+		// ... and every third one with the plugin's server going away before the client is closed
+		pg := kind != "mux" && len(out)%3 == 1
+		out = append(out, spec.Case{Kind: kind, P: spec.MustJSON(spec.C09Case{Kind: kind, Steps: steps, CloseRace: cr && !pg, PeerGoneFirst: pg})})
 	}
 	sides := []string{"host", "plugin"}
 	common := []string{"dial-noaccept", "accept-nodial", "dial-twice", "accept-timeout-then-dial"}
@@ -184,6 +186,12 @@ func c09Judge(c spec.Case, evs []spec.Event, d *Death) CaseResult {
 	var end spec.C09End
 	if decodeD(findEv(evs, "obs", "end"), &end) && !end.ClosedOK {
 		viol("close-hung", "closing the client did not return within 20 s")
+	}
+	if end.PeerGone {
+		res.Counters["closes_after_the_peer_went_away"]++
+		if end.PendingStuck {
+			viol("accept-stuck-after-close", "a host-side AcceptAndServe that was pending when the plugin's server went away had not returned 20 s after the client was closed\n"+end.PendingDump)
+		}
 	}
 	if end.CloseRaced {
 		res.Counters["closes_raced_with_accepts"]++
